@@ -570,6 +570,13 @@ class Checker(CommandMixin):
                     # nameplate still lives and still leads to this mailbox
                     for n in pre_np_by_mb.get(k, []):
                         self.lost_np[(n.app, n.name)] = n.mailbox
+                        if any(r.flag for r in n.sides):
+                            # C07: a claim is ended by release, expiry or the mailbox's deletion by its
+                            # sides - this was none of them
+                            self.v("C07", "claim-ended-by-nothing-else", ev,
+                                   "nameplate %r (claimed by %r) was removed by the sweep at %.3f although its channel "
+                                   "had not expired: %s" % (n.name, [r.side for r in n.sides if r.flag], now,
+                                                            self.viol[-1]["text"][:160]))
                 for n in pre_np_by_mb.get(k, []):
                     if (n.app, n.name) in post_np and post_np[(n.app, n.name)].mailbox == m.id:
                         self.v("C13", "swept-completely", ev, "nameplate %r survives its swept mailbox" % n.name)
